@@ -439,3 +439,72 @@ def run(unit, em):
                         em.ok(c, unit.text(c, 50), 'only when the decrement returned 0', 'R7')
                     else:
                         em.violation(c, unit.text(c, 50), 'a node is disposed of without its reference count having reached 0 in this branch', 'R7')
+
+
+# ---- R10 `orphan`: a node spawned into a local is handed on or given back on every path
+def run_orphan(unit, em):
+    """A node obtained from `spawnLeaf` / `spawnInternal` into a local has reference count 0 until somebody links it
+    (`spawnInternal(.., L, ..)` references its children), counts it (`IncrementRefCnt(L)`), or returns / stores it.  If some path
+    from the spawn to the end of the function does none of these, the node stays in the unique table uncounted — an orphan that
+    no release will ever reach (the store does not return to its previous size; seed C18-10).  Obligation: every path hands the
+    node on, or the function disposes of it under the zero test (`if (Get*RefCnt(L) == 0) disposeOf*(L)`)."""
+    from vfacts import must_pass_through, known_facts
+    from .prov import var_table, local_sources
+    for fn in unit.functions:
+        if fn.body is None or '/mtbdd/' not in fn.file:
+            continue
+        vt = var_table(fn)
+        cfg = None
+        for d, v in vt.items():
+            if v['kind'] != 'local':
+                continue
+            spawns = [x for s_ in local_sources(fn, d) for x in walk(s_) if x['k'] in ('CallExpr', 'CXXMemberCallExpr') and (cname(x) or '').startswith('spawn')]
+            if not spawns or not is_node(v['decl'].get('init')) or not any(any(y is sp for y in walk(v['decl']['init'])) for sp in spawns):
+                continue        # only nodes spawned at the declaration of the local (an accumulator re-assigned in a loop is returned/linked by construction)
+            if cfg is None:
+                cfg = fn.cfg()
+            if cfg is None:
+                break
+            name = v['decl'].get('n')
+
+            def mentions(e, d=d):
+                return any(x['k'] == 'DeclRefExpr' and x.get('d') == d for x in walk(e))
+
+            def consumer(n, d=d):
+                if n['k'] in ('CallExpr', 'CXXMemberCallExpr') and (cname(n) or '') in ('spawnInternal', 'IncrementRefCnt', 'IncrementLeafRefCnt', 'IncrementInternalRefCnt') and any(mentions(a) for a in n.get('args') or []):
+                    return True
+                if n['k'] == 'ReturnStmt' and mentions(n):
+                    return True
+                if n['k'] == 'BinaryOperator' and n.get('op') == '=' and mentions(n['ch'][1]) and not mentions(n['ch'][0]):
+                    return True
+                return False
+            pos = cfg.locate(v['node'])
+            if pos is None:
+                continue
+            ok, _ = must_pass_through(cfg, pos, None, consumer)
+            txt = '%s = %s' % (name, unit.text(spawns[0], 40))
+            if ok:
+                em.ok(v['node'], txt, 'handed on (linked, counted, returned or stored) on every path', 'R10')
+                continue
+            disposed = False
+            for c in fn.calls():
+                if c['k'] in ('CallExpr', 'CXXMemberCallExpr') and (cname(c) or '').startswith('disposeOf') and any(mentions(a) for a in c.get('args') or []):
+                    facts, _ = known_facts(c)
+                    for pol, a in facts:
+                        a = strip(a)
+                        if pol and a is not None and a['k'] == 'BinaryOperator' and a.get('op') == '==' and any(
+                                x['k'] in ('CallExpr', 'CXXMemberCallExpr') and 'RefCnt' in (cname(x) or '') and any(mentions(y) for y in x.get('args') or []) for x in walk(a)):
+                            disposed = True
+            if disposed:
+                em.ok(v['node'], txt, 'not used on every path, and disposed of under the zero test when it was not', 'R10')
+            else:
+                em.violation(v['node'], txt, 'the node spawned into `%s` can reach the end of the function without having been linked, counted, returned or stored, and the function never disposes of it under '
+                             'a zero test: it stays in the unique table with reference count 0, out of reach of every release' % name, 'R10')
+
+
+_run_r1_9 = run
+
+
+def run(unit, em):
+    _run_r1_9(unit, em)
+    run_orphan(unit, em)
